@@ -1,10 +1,23 @@
 (** C07 -- patterned einsum equals the semiring einsum of the dense operands.
-    Only property theorems live here, each closed by [exact] and followed by Print Assumptions. *)
+    Only property theorems live here, each closed by [exact] and followed by Print Assumptions.
+
+    Reading guide.  [einsum_dense] is the specification (sum over the non-output indices of the
+    product of the operand entries).  [einsum_run] is the model of fggs.indices.einsum, statement
+    by statement; its record [erun] keeps the intermediate data: [er_ts] the operands after
+    [default_to(zero)] / [freshen], [er_sigma] the substitution, [er_i2v] index_to_vaxis,
+    [er_raw] the result before [__post_init__].  [dn t] = (shape, denotation) of a patterned
+    tensor.  [coincs ts inputs i2v] = the physical environments of all operands on which every
+    co-indexed axis evaluates like the first axis of its index; [g ... oidx pi] = the product of the
+    physical elements at [pi] if the output axes evaluate to [oidx], else zero.  The decidable
+    premises [cert_operands / cert_subst / cert_views / cert_complete] (Model/EinsumCert.v) are
+    evaluated by the harness on every explored case. *)
 From Coq Require Import List Arith Bool PArith Permutation.
 Import ListNotations.
 Require Import Fggs.Model.Semiring Fggs.Model.SumProduct.
-Require Import Fggs.Model.Axis Fggs.Model.PTensor Fggs.Model.AxisCheck Fggs.Model.Einsum.
-Require Import Fggs.Proofs.Einsum_dense.
+Require Import Fggs.Model.Axis Fggs.Model.PTensor Fggs.Model.AxisCheck Fggs.Model.AxisEnum Fggs.Model.Einsum Fggs.Model.EinsumCheck Fggs.Model.EinsumCert.
+Require Import Fggs.Proofs.Axis_sem Fggs.Proofs.PTensor_dense.
+Require Import Fggs.Proofs.Einsum_dense Fggs.Proofs.Einsum_support Fggs.Proofs.Einsum_form Fggs.Proofs.Einsum_views Fggs.Proofs.Einsum_reduce.
+Require Import Fggs.Proofs.Einsum_project Fggs.Proofs.Einsum_reindex Fggs.Proofs.Einsum_top.
 Local Open Scope nat_scope.
 
 (** * (a) the dense specification *)
@@ -19,3 +32,164 @@ Theorem C07_dense_spec_zero_size : forall (R : Type) (o : sr_ops R) ops inputs o
   einsum_dense o ops inputs output oidx = Semiring.zero o.
 Proof. exact @einsum_dense_zero_size. Qed.
 Print Assumptions C07_dense_spec_zero_size.
+
+(** permutation invariance of the operands (the summed-out indices being enumerated in the same order) *)
+Theorem C07_dense_spec_perm : forall (R : Type) (o : sr_ops R), sr_ring o ->
+  forall ops inputs ops' inputs' output oidx,
+  length ops = length inputs -> length ops' = length inputs' ->
+  Permutation (combine ops inputs) (combine ops' inputs') ->
+  summed_labels inputs' output = summed_labels inputs output ->
+  map (lval (label_sizes (map fst ops') inputs')) (summed_labels inputs output)
+  = map (lval (label_sizes (map fst ops) inputs)) (summed_labels inputs output) ->
+  einsum_dense o ops' inputs' output oidx = einsum_dense o ops inputs output oidx.
+Proof. exact @einsum_dense_perm_same_order. Qed.
+Print Assumptions C07_dense_spec_perm.
+
+(** broadcast (expanded) operands are functions that ignore a coordinate: the specification only
+    looks at the operand entries *)
+Theorem C07_dense_spec_ext : forall (R : Type) (o : sr_ops R) ops ops' inputs output oidx,
+  map fst ops = map fst ops' ->
+  (forall j idx, j < length ops -> snd (nth j ops ([], fun _ => Semiring.zero o)) idx
+                                   = snd (nth j ops' ([], fun _ => Semiring.zero o)) idx) ->
+  einsum_dense o ops inputs output oidx = einsum_dense o ops' inputs output oidx.
+Proof. exact @einsum_dense_ext. Qed.
+Print Assumptions C07_dense_spec_ext.
+
+(** the support form: for patterned operands with default zero the specification is a sum over
+    the coinciding physical environments ("the zero default annihilates") *)
+Theorem C07_dense_support_form : forall (R : Type) (o : sr_ops R), sr_ring o ->
+  forall (ts : list (ptensor R)) inputs output i2v,
+  length ts = length inputs -> Forall (wf R) ts -> Forall (fun t => default t = Semiring.zero o) ts ->
+  Forall2 (fun t inp => length (vaxes t) = length inp) ts inputs ->
+  NoDup (map fst (all_vars ts)) ->
+  (forall l, In l output -> lassoc l i2v <> None) ->
+  (forall l e0, lassoc l i2v = Some e0 -> In (l, e0) (occurrences ts inputs)) ->
+  (forall l e, In (l, e) (occurrences ts inputs) -> exists e0, lassoc l i2v = Some e0 /\ numel e0 = numel e) ->
+  forall oidx,
+  einsum_dense o (map (dn (R:=R)) ts) inputs output oidx
+  = sumS o (all_envs (all_vars ts))
+         (fun pi => if coinc_b i2v (occurrences ts inputs) (env_of pi) && leqb (map (lv i2v (env_of pi)) output) oidx
+                    then term o ts (env_of pi) else Semiring.zero o).
+Proof. exact @dense_support_form. Qed.
+Print Assumptions C07_dense_support_form.
+
+(** * (b) the patterned algorithm *)
+(** Full statement (open in this generality):
+      forall typed operands ts, einsum_model ts inputs output = Ok r ->
+        denote r = einsum_dense (map dn ts) inputs output.
+    Proved: the same for the operands [er_ts] the algorithm works on (after [default_to(zero)] and
+    [freshen]; [C07_prepared_operands]: these are [ts] themselves when the defaults are zero and
+    the physical axes pairwise disjoint), for the result before [__post_init__]
+    ([C07_post_init_identity]: which is then the identity), under the decidable premises
+    evaluated per case; soundness half without the completeness premise. *)
+Theorem C07_patterned_eq_dense_partial : forall (R : Type) (o : sr_ops R), sr_ring o ->
+  forall veqb : R -> R -> bool, (forall a b, veqb a b = true -> a = b) ->
+  forall genabled next ts0 inputs output r,
+  einsum_run o veqb genabled next ts0 inputs output = Ok r ->
+  er_failed r = false -> er_zero_axis r = false ->
+  Forall (st_ok (R:=R)) (er_ts r) ->
+  cert_operands o veqb r inputs output = true -> cert_subst r = true -> cert_views r = true ->
+  forall oidx, length oidx = length output ->
+  (exists L, NoDup L /\ incl L (coincs (operands_of r) inputs (er_i2v r)) /\
+     denote R (er_raw r) oidx = sumS o L (g o (operands_of r) output (er_i2v r) oidx) /\
+     einsum_dense o (map (dn (R:=R)) (operands_of r)) inputs output oidx
+     = sumS o (coincs (operands_of r) inputs (er_i2v r)) (g o (operands_of r) output (er_i2v r) oidx)) /\
+  (cert_complete r inputs = true ->
+     denote R (er_raw r) oidx = einsum_dense o (map (dn (R:=R)) (operands_of r)) inputs output oidx).
+Proof. exact @einsum_raw_correct. Qed.
+Print Assumptions C07_patterned_eq_dense_partial.
+
+(** failure of unification / a zero-size physical axis: the all-zero result is right when the
+    supports are disjoint (no coincidence) *)
+Theorem C07_zero_result_partial : forall (R : Type) (o : sr_ops R), sr_ring o ->
+  forall veqb : R -> R -> bool, (forall a b, veqb a b = true -> a = b) ->
+  forall genabled next ts0 inputs output r,
+  einsum_run o veqb genabled next ts0 inputs output = Ok r ->
+  er_failed r || er_zero_axis r = true ->
+  cert_operands o veqb r inputs output = true -> cert_complete r inputs = true ->
+  forall oidx, denote R (er_raw r) oidx = einsum_dense o (map (dn (R:=R)) (operands_of r)) inputs output oidx.
+Proof. exact @einsum_zero_correct. Qed.
+Print Assumptions C07_zero_result_partial.
+
+Theorem C07_prepared_operands : forall (R : Type) (o : sr_ops R) (veqb : R -> R -> bool)
+  genabled next (ts : list (stensor (R:=R))) inputs output r,
+  einsum_run o veqb genabled next ts inputs output = Ok r ->
+  length ts = length inputs ->
+  forallb (fun t => veqb (default (st_pt t)) (Semiring.zero o)) ts = true ->
+  NoDup (stkeys ts) ->
+  er_ts r = ts.
+Proof. exact @einsum_run_prepared. Qed.
+Print Assumptions C07_prepared_operands.
+
+Theorem C07_post_init_identity : forall (R : Type) (o : sr_ops R) (veqb : R -> R -> bool)
+  genabled next ts0 inputs output r,
+  einsum_run o veqb genabled next ts0 inputs output = Ok r ->
+  er_failed r = false -> er_zero_axis r = false -> cert_views r = true ->
+  post_init R (er_raw r) = Ok (er_raw r).
+Proof. exact @einsum_post_init_id. Qed.
+Print Assumptions C07_post_init_identity.
+
+(** the premises are satisfiable: they hold for the dot product of every pair of typed axes of the
+    bounded domain of C06_unify_complete_upto12 (all index types with <= 3 leaves / size <= 12) *)
+Theorem C07_cert_holds_upto12 : forall t e f, In t (types_upto 12) -> In e (axes_of t 1) -> In f (axes_of t 50) ->
+  exists r, einsum_run bool_ops Bool.eqb false 100 [pair_tensor e; pair_tensor f] [[0]; [0]] [] = Ok r /\
+            cert_verdict bool_ops Bool.eqb r [[0]; [0]] [] = 0.
+Proof. exact cert_holds_upto12. Qed.
+Print Assumptions C07_cert_holds_upto12.
+
+(** tensors read from torch storage through (offset, strides) satisfy [st_ok]: a stride-0
+    (expanded) dimension is ignored *)
+Theorem C07_wire_tensors_ok : forall (R W : Type) (ofw : W -> R) (w : wten (W:=W)),
+  wire_ok w = true -> st_ok (st_of_wire ofw w).
+Proof. exact @st_of_wire_ok. Qed.
+Print Assumptions C07_wire_tensors_ok.
+
+(** * project: the stride lemma for views *)
+Theorem C07_project_view : forall (R : Type) sigma (t : stensor (R:=R)) v (rho rho' : env),
+  project_view sigma t = Ok v -> models rho sigma ->
+  (forall strs, mapM (stride (sfuel sigma (phys_axes (paxes (st_pt t)))) sigma) (phys_axes (paxes (st_pt t))) = Ok strs ->
+     forall os k c, In os strs -> In (k, c) (snd os) -> rho k = rho' k /\ In k (map fst (vw_vars v))) ->
+  vw_fn v (map rho' (map fst (vw_vars v))) = pget R (st_pt t) rho.
+Proof. exact @project_view_spec. Qed.
+Print Assumptions C07_project_view.
+
+(** * (c) reduce_equation / post_einsum *)
+Theorem C07_reduce_equation_sound : forall (R : Type) (o : sr_ops R), sr_ring o ->
+  forall (views : list (view (R:=R))) (outp : list pn) (coords : list nat),
+  Forall (view_ok (R:=R)) views ->
+  NoDup (map fst outp) ->
+  (forall k, In k (map fst outp) -> In k (map fst (flat_map (vw_vars (R:=R)) views))) ->
+  (forall v kn n, In v views -> In kn (vw_vars v) -> In (fst kn, n) outp -> n = snd kn) ->
+  Forall2 lt coords (map snd outp) ->
+  post_einsum_model (einsum_views o (rd_views (reduce_equation_model views outp))
+                                    (rd_out (reduce_equation_model views outp)))
+                    (rd_unsq (reduce_equation_model views outp)) coords
+  = einsum_views o views outp coords.
+Proof. exact @reduce_equation_sound. Qed.
+Print Assumptions C07_reduce_equation_sound.
+
+(** the views made by [project] from tensors whose stride-0 dimensions are ignored satisfy the
+    hypothesis of the previous theorem *)
+Theorem C07_project_view_ok : forall (R : Type) sigma (t : stensor (R:=R)) v,
+  st_ok t -> project_view sigma t = Ok v -> view_ok v.
+Proof. exact @project_view_ok. Qed.
+Print Assumptions C07_project_view_ok.
+
+(** * mv / mm *)
+Theorem C07_mv_mm_instances : forall (R : Type) (o : sr_ops R) veqb genabled next (a b : stensor (R:=R)),
+  mv_model o veqb genabled next a b = einsum_model o veqb genabled next [a; b] [[0; 1]; [1]] [0] /\
+  mm_model o veqb genabled next a b = einsum_model o veqb genabled next [a; b] [[0; 1]; [1; 2]] [0; 2].
+Proof. exact @mv_mm_instances. Qed.
+Print Assumptions C07_mv_mm_instances.
+
+Theorem C07_mv_spec : forall (R : Type) (o : sr_ops R), sr_ring o -> forall (A v : list nat -> R) m n i,
+  einsum_dense o [([m; n], A); ([n], v)] [[0; 1]; [1]] [0] [i]
+  = sumS o (seq 0 n) (fun j => mul o (A [i; j]) (v [j])).
+Proof. exact @einsum_dense_mv. Qed.
+Print Assumptions C07_mv_spec.
+
+Theorem C07_mm_spec : forall (R : Type) (o : sr_ops R), sr_ring o -> forall (A B : list nat -> R) m n p i k,
+  einsum_dense o [([m; n], A); ([n; p], B)] [[0; 1]; [1; 2]] [0; 2] [i; k]
+  = sumS o (seq 0 n) (fun j => mul o (A [i; j]) (B [j; k])).
+Proof. exact @einsum_dense_mm. Qed.
+Print Assumptions C07_mm_spec.
